@@ -126,7 +126,7 @@ func init() {
 		}})
 
 	register(&Rule{ID: "C18.R4", Props: []string{"C18"}, Min: 12, Needs: NeedMain,
-		Doc: "parser tables: the option flags and their defaults are h \"\", p 0, t 3000, g 0, q 0, w -1, v 0, e 0, b \"\"; the weight is normalised to 100 exactly when a weight type is set and the weight is -1 or above 100; each parsed option lands in its own field; tcp -> Istcp 1, ssl -> Istcp 2 with Proto tcp, anything else Istcp 0",
+		Doc: "parser tables: the option flags and their defaults are h \"\", p 0, t 3000, g 0, q 0, w -1, v 0, e 0, b \"\"; the weight is normalised to 100 exactly when a weight type is set and the weight is -1 or above 100; each parsed option lands in its own field; for every class of input string (tcp…, ssl…, any other word, shorter strings) and on every path Parse yields tcp -> Istcp 1, ssl -> Istcp 2 with Proto tcp, anything else Istcp 0 with the word kept, and does not panic (finite case-split evaluation, A15)",
 		Run: func(r *R) {
 			fn := r.w.Func(endpointPkg, "Parse")
 			if fn == nil {
